@@ -306,12 +306,25 @@ func runC13(t *kernel.Tape, opt core.Opts) *core.Outcome {
 	}
 	triggered := map[string]*ExecRec{}
 	for _, e := range env.Execs {
-		if e.Failed && e.Tag == "r0" {
+		// (a node of an eager run that fails after the call has already returned is not a
+		// failure of that call)
+		if e.Failed && e.Tag == "r0" && e.Start <= res.EndSeq {
 			triggered[e.Path] = e
 		}
 	}
 	pathText := func(path string) string {
 		return "node path: [" + strings.Join(strings.Split(path, "/"), ", ") + "]"
+	}
+	// several failures can compete (a failing node and a nested graph running out of steps
+	// in the same batch): any of the classes the model allows may be the one reported
+	expect := mr.Err
+	if res.Err != nil && cancel == nil {
+		got := errClass(res.Err)
+		for _, a := range mr.AltErr {
+			if sameErr(a, got) {
+				expect = a
+			}
+		}
 	}
 	switch {
 	case cancel != nil:
@@ -328,7 +341,7 @@ func runC13(t *kernel.Tape, opt core.Opts) *core.Outcome {
 		} else if mr.Err == ErrNone && Canon(res.Out) != Canon(mr.Out) {
 			o.Violate("C13/result-mismatch", fmt.Sprintf("model %q, run %q", Canon(mr.Out), Canon(res.Out)))
 		}
-	case mr.Err == ErrMaxSteps:
+	case expect == ErrMaxSteps:
 		o.Stat("probe.step_limit_hit", 1)
 		if res.Err == nil {
 			o.Violate("C13/result-mismatch", "model says the step limit is exceeded, the run returned "+Canon(res.Out))
@@ -348,7 +361,7 @@ func runC13(t *kernel.Tape, opt core.Opts) *core.Outcome {
 				o.Violate("C13/result-mismatch", "model says the step limit is exceeded, the run returned another error: "+firstLine(res.Err.Error()))
 			}
 		}
-	case mr.Err == ErrNode:
+	case expect == ErrNode:
 		// an error item in the middle of a stream only fails the run if somebody has to read
 		// that far; if not, the run must behave exactly like the fault-free one
 		midOnly := call.Paradigm != PInvoke
@@ -394,7 +407,7 @@ func runC13(t *kernel.Tape, opt core.Opts) *core.Outcome {
 				if strings.Contains(msg, "INJECTED<") {
 					o.Violate("C13/not-unwrappable:node-error", "the run error mentions the injected node error, but errors.As cannot recover it: "+firstLine(msg))
 				} else {
-					o.Violate("C13/failure-not-identifiable", "the run failed, but the error neither unwraps to an injected error nor carries the panic value: "+firstLine(msg))
+					o.Violate("C13/failure-not-identifiable", "the run failed, but the error neither unwraps to an injected error nor carries the panic value: "+strings.ReplaceAll(tailOf(msg, 400), "\n", " | ")+fmt.Sprintf(" (model: %s alt %v execs %v)", mr.Err, mr.AltErr, mr.Execs))
 				}
 				break
 			}
